@@ -133,20 +133,18 @@ theorem osu_gradual_value_eq_oneshot_with_views (vs : ViewSkills S) (objs : List
   rw [hl]
   rfl
 
-/-- **taiko (partial, same hypotheses as `taiko_next_eq_prefix_partial`)**: for every skill with ANY
-look-ahead (the colour / rhythm groups span the whole list) the gradual values are the one-shot
-values: both paths call the same `create_difficulty_objects` on the whole map; "objects up to the
-`take`-th hit" only bounds the processing loop. -/
-theorem taiko_gradual_value_eq_oneshot_with_views_partial (vs : ViewSkills S) (rest : List Bool)
-    (hne : rest ≠ []) :
-    let objs := true :: true :: rest
-    let H := 2 + hitsIn rest
+/-- **taiko** (every object list, since the fix of `TaikoGradualDifficulty::{next,nth}`): for every
+skill with ANY look-ahead (the colour / rhythm groups span the whole list) the gradual values are the
+one-shot values: both paths call the same `create_difficulty_objects` on the whole map; "objects up
+to the `take`-th hit" only bounds the processing loop. -/
+theorem taiko_gradual_value_eq_oneshot_with_views (vs : ViewSkills S) (objs : List Bool) :
+    let H := hitsIn objs
     let sk := taikoSkillsV vs objs
     ((taikoMachine sk objs).nexts (taikoNew sk objs) H).1 =
       (List.range H).map (fun d => Res.some (taikoOneShotV vs objs (d + 1))) ∧
     ((taikoMachine sk objs).next ((taikoMachine sk objs).nexts (taikoNew sk objs) H).2).1 = .none := by
-  intro objs H sk
-  obtain ⟨hv, hn, _⟩ := taiko_next_eq_prefix_partial sk rest hne
+  intro H sk
+  obtain ⟨hv, hn, _⟩ := taiko_next_eq_prefix sk objs
   exact ⟨hv, hn⟩
 
 /-- **catch**: the one-shot path truncates the palpable objects BEFORE it builds difficulty
@@ -264,13 +262,13 @@ theorem mania_nth_eq_iterated_next_with_views (vs : ViewSkills S) (objs : List M
     some (m.nth g k).1 = (m.nexts g (k + 1)).1.getLast? :=
   (mania_nth_eq_iterated_next_partial _ objs g i k hc hk).1
 
-theorem taiko_nth_eq_iterated_next_with_views_partial (vs : ViewSkills S) (rest : List Bool)
-    (hne : rest ≠ []) (g : TaikoGrad S) (i k : Nat)
-    (hc : TaikoReg (taikoSkillsV vs (true :: true :: rest)) rest g i)
-    (hk : i + k + 1 ≤ 2 + hitsIn rest) :
-    let m := taikoMachine (taikoSkillsV vs (true :: true :: rest)) (true :: true :: rest)
+theorem taiko_nth_eq_iterated_next_with_views (vs : ViewSkills S) (objs : List Bool)
+    (g : TaikoGrad S) (i k : Nat)
+    (hc : TaikoCanon (taikoSkillsV vs objs) objs g i)
+    (hk : i + k + 1 ≤ hitsIn objs) :
+    let m := taikoMachine (taikoSkillsV vs objs) objs
     some (m.nth g k).1 = (m.nexts g (k + 1)).1.getLast? :=
-  (taiko_nth_eq_iterated_next_partial _ rest hne g i k hc hk).1
+  (taiko_nth_eq_iterated_next _ objs g i k hc hk).1
 
 /-! ## (d) Generated obligations: the model's look-ahead and `take` positions are the source's -/
 
@@ -337,18 +335,16 @@ theorem lookahead_modes_build_full_list :
 
 /-- **Composition, no side condition left**: for every skill that reads the list no further ahead
 than the evaluators of its mode do *according to the generated site table*, in all four modes the
-gradual values are the one-shot values with each path showing the skill its own list (taiko under
-the hypotheses of `taiko_next_eq_prefix_partial`). -/
+gradual values are the one-shot values with each path showing the skill its own list. -/
 theorem gradual_value_eq_oneshot_with_views (vs : ViewSkills S) :
     (∀ (objs : List OsuObj) (gtake : Nat), objs.length ≤ gtake →
       let sk := osuSkillsV vs objs gtake
       ((osuMachine sk objs).nexts (osuNew sk objs) objs.length).1 =
         (List.range objs.length).map (fun d => Res.some (osuOneShotV vs objs (d + 1)))) ∧
-    (∀ (rest : List Bool), rest ≠ [] →
-      let objs := true :: true :: rest
+    (∀ (objs : List Bool),
       let sk := taikoSkillsV vs objs
-      ((taikoMachine sk objs).nexts (taikoNew sk objs) (2 + hitsIn rest)).1 =
-        (List.range (2 + hitsIn rest)).map (fun d => Res.some (taikoOneShotV vs objs (d + 1)))) ∧
+      ((taikoMachine sk objs).nexts (taikoNew sk objs) (hitsIn objs)).1 =
+        (List.range (hitsIn objs)).map (fun d => Res.some (taikoOneShotV vs objs (d + 1)))) ∧
     (vs.Respects (modeAhead "catch") → ∀ (evs : List CatchEvent), CatchWellFormed evs →
       let recs := catchGradualRecs evs
       let sk := catchSkillsV vs evs
@@ -359,7 +355,7 @@ theorem gradual_value_eq_oneshot_with_views (vs : ViewSkills S) :
       ((maniaMachine sk objs).nexts (maniaNew sk objs) objs.length).1 =
         (List.range objs.length).map (fun d => Res.some (maniaOneShotV vs objs (d + 1)))) := by
   refine ⟨fun objs gtake hg => (osu_gradual_value_eq_oneshot_with_views vs objs gtake hg).1,
-    fun rest hne => (taiko_gradual_value_eq_oneshot_with_views_partial vs rest hne).1, ?_, ?_⟩
+    fun objs => (taiko_gradual_value_eq_oneshot_with_views vs objs).1, ?_, ?_⟩
   · intro hr evs hwf
     rw [catch_lookahead_as_modelled] at hr
     exact (catch_gradual_value_eq_oneshot_with_views vs hr evs hwf).1
